@@ -17,7 +17,23 @@ EXPECTED_STATS = ["missing", "missing_w", "report", "obsolete", "changed", "chan
 
 def regexes():
     from compare_locales.compare.content import ContentComparer
-    return {"keyRE": ContentComparer.keyRE}
+    from compare_locales.parser import base
+    count_words_source()
+    return {"keyRE": ContentComparer.keyRE,
+            # Entry.count_words (Model/CountWords.v)
+            "count_br": base.Entry.re_br, "count_sgml": base.Entry.re_sgml}
+
+
+def count_words_source():
+    """Entry.count_words must be: re_br.sub("\\n", val), re_sgml.sub("", .), len(.split())"""
+    from compare_locales.parser import base
+    body = ast.parse(textwrap.dedent(inspect.getsource(base.Entry.count_words))).body[0].body
+    got = [ast.unparse(st) for st in body if not (isinstance(st, ast.Expr)
+                                                   and isinstance(st.value, ast.Constant))]
+    want = ["value = self.re_br.sub('\\n', self.val)", "value = self.re_sgml.sub('', value)",
+            "return len(value.split())"]
+    if got != want:
+        raise ValueError("Entry.count_words changed: %r" % got)
 
 
 def _compare_tree():
